@@ -53,6 +53,9 @@ class Check(HCheck):
             Space(Cfg("domain"), [al.links((A + b"p:s038|", A + b"p:s002|")), al.page(A + b"p:s039|p:k|")], 1, roots=[(al.page(A), al.pages(tuple(A + b"p:s%03d|" % i for i in range(40)), False), al.links((A + b"p:s030|", A), (A + b"p:s035|", A + b"p:s001|"), (A + b"p:s039|", Ax), (A + b"p:s031|", A + b"p:s030|")))], name="plinks/deep-right-spine"),
             # every route that changes the prefix map, between two paginations
             Space(Cfg("domain"), al.prefix_edit_ops() + [al.OBS, al.links((Axy, Ax), (Ax, Axy)), al.rule(A, "path1")], 3 if thorough else 2, roots=[al.R2, al.R4], name="plinks/edits"),
+            # two corpora around clear / reopen with the check's own queries in between (whatever a
+            # pagination remembers on the object must not outlive clear()): every sequence, no merging
+            Space(Cfg("domain"), R.lifecycle_ops(), 5 if thorough else 4, roots=[al.R0], name="plinks/lifecycle", dedup=False),
         ]
 
     def check_state(self, w, ctx):
